@@ -34,9 +34,7 @@ class Failure:
     clause: str       # oracle clause that was violated
     signature: str    # root-cause bucket: clause + cause features of the input
     detail: str = ''
-
-    def to_json(self):
-        return dataclasses.asdict(self)
+    case: object = None   # optional: a smaller self-contained case reproducing this failure
 
 
 @dataclasses.dataclass
@@ -47,6 +45,8 @@ class Outcome:
     key: str = None          # distinctness key (default: digest of the case)
     info: dict = None        # extra material shown with samples
     excluded: int = 0        # things skipped because of a known finding / tolerance band
+    evals: int = 1           # executions of the code under test this case stands for
+    extra_keys: list = dataclasses.field(default_factory=list)   # more distinct non-trivial keys
 
 
 def valjean_frame(exc):
@@ -115,11 +115,14 @@ class Tally:
         self.budget_exhausted = False
         self.origins = {}      # origin -> evaluations
         self.known_seen = {}   # known-finding id -> count
+        self.case_counts = {}  # origin -> number of cases (a case may stand for several executions)
         self.shard = None
 
     def add(self, case, outcome, origin, keep_samples=4):
-        self.evaluations += 1
-        self.origins[origin] = self.origins.get(origin, 0) + 1
+        self.evaluations += outcome.evals
+        self.origins[origin] = self.origins.get(origin, 0) + outcome.evals
+        self.nontrivial_keys.update(outcome.extra_keys)
+        self.case_counts[origin] = self.case_counts.get(origin, 0) + 1
         self.excluded += outcome.excluded
         for lab in outcome.labels:
             self.labels[lab] = self.labels.get(lab, 0) + 1
@@ -134,7 +137,9 @@ class Tally:
                     if outcome.labels:
                         samp['labels'] = list(outcome.labels)
                     self.samples.append(samp)
+        outer_case = case
         for fail in outcome.failures:
+            case = fail.case if fail.case is not None else outer_case
             entry = match_known(CTX.get('check'), CTX.get('known', ()), case, fail)
             if entry is not None:
                 self.known_seen[entry['id']] = self.known_seen.get(entry['id'], 0) + 1
@@ -160,6 +165,8 @@ class Tally:
             self.labels[k] = self.labels.get(k, 0) + v
         for k, v in other.origins.items():
             self.origins[k] = self.origins.get(k, 0) + v
+        for k, v in other.case_counts.items():
+            self.case_counts[k] = self.case_counts.get(k, 0) + v
         for k, v in other.known_seen.items():
             self.known_seen[k] = self.known_seen.get(k, 0) + v
         for sig, buck in other.buckets.items():
